@@ -62,6 +62,13 @@ _state: dict = {}
 
 def _init():
     if "init" not in _state:
+        # the interpreter behind constant-fold-interp evaluates `shli c, 2**33` with Python ints (gigabytes):
+        # cap the address space of this process so that such a fold ends in MemoryError (-> inconclusive)
+        import resource
+        soft, hard = resource.getrlimit(resource.RLIMIT_AS)
+        cap = 6 << 30
+        if soft == resource.RLIM_INFINITY or soft > cap:
+            resource.setrlimit(resource.RLIMIT_AS, (cap, hard))
         refsem.selftest()
         from xdsl.transforms import get_all_passes
         allp = get_all_passes()
